@@ -255,6 +255,24 @@ pub fn generate(a: &Args) {
     sys_cases.push((matrix(&[vec![0], vec![1]], 2).alist(), Some((vec![vec![0], vec![1]], 2)), "square"));
     sys_cases.push((s("2 2\n1 1\n1 1\n1 1\n3\n1\n1\n2\n"), None, "malformed"));
     sys_cases.push((s("x\n"), None, "malformed"));
+    // wide matrices with ONE row index of the column lists replaced by a value that no row has: just above the number of rows, between
+    // the number of rows and the number of columns (the header order "ncols nrows" invites the confusion), the number of columns, beyond both (zero is legal padding in alist and is not used)
+    for (j, (nr, nc)) in [(4usize, 12usize), (3, 7), (2, 9), (5, 6)].into_iter().enumerate() {
+        let rows: Vec<Vec<usize>> = (0..nr).map(|r| (0..nc).filter(|c| c % nr == r || (c + 1) % nc == r).collect()).collect();
+        let text = matrix(&rows, nc).alist();
+        let lines: Vec<&str> = text.lines().collect();
+        for (t, bad) in [nr + 1, (nr + nc + 1) / 2, nc, nc + 1, 4096].into_iter().enumerate() {
+            if !(th || (t + j) % 2 == 0) { continue; }
+            let target = 4 + (t * 5 + j) % nc;               // one of the nc column lists (lines 4 .. 4+nc)
+            let mut ls: Vec<String> = lines.iter().map(|l| l.to_string()).collect();
+            let mut toks: Vec<String> = ls[target].split_whitespace().map(|x| x.to_string()).collect();
+            if toks.is_empty() { continue; }
+            let last = toks.len() - 1;
+            toks[last] = bad.to_string();
+            ls[target] = toks.join(" ");
+            sys_cases.push((ls.join("\n") + "\n", None, "malformed"));
+        }
+    }
     for (i, (text, m, kind)) in sys_cases.iter().enumerate() {
         out.new_case();
         let f = format!("sys{i}.alist");
@@ -290,7 +308,10 @@ pub fn generate(a: &Args) {
         let partial = if i % 3 == 1 { k / 2 } else { 0 };
         let input: Vec<u8> = (0..words * k + partial).map(|_| (rng.next() & 1) as u8).collect();
         std::fs::write(format!("{work}/enc{i}.in"), &input).unwrap();
-        let pat = ["", "1,1,0", "1,1,1,0,1,1", "1,0,1,1,1"][(i / 2) % 4];
+        let mut pat = ["", "1,1,0", "1,1,1,0,1,1", "1,0,1,1,1"][(i / 2) % 4];
+        // rates that are not binary fractions, where N_cw / rate falls just below the integer (18 / (9/7) = 13.999...): the output length
+        // is a count of kept positions, not a rounded quotient
+        if ncw == 18 && i % 6 == 2 { pat = ["1,1,1,0,1,1,0,1,1", "1,1,1,0,1,1,1,1,1,0,1,1,1,0,1,1,1,0"][(i / 12) % 2]; }
         let mut args = vec![s("encode"), format!("enc{i}.alist"), format!("enc{i}.in"), format!("enc{i}.out")];
         if !pat.is_empty() { args.push(s("--puncturing")); args.push(s(pat)); }
         // malformed patterns (must give a clean failure): the empty string, a trailing comma, a blank, a letter
